@@ -74,3 +74,12 @@ CHECKS['C12'] = {
             'the orders it selects start at that instant, last exactly their duration, never exceed capacity or double-book a target, call '
             'the hooks once, charge the cost once, and that nothing startable is left waiting when time advances.',
 }
+
+CHECKS['C18'] = {
+    'harnesses': ['harness.c18_scheduler'],
+    'text': 'Bounded model checking of the real ActionScheduler: timetables of up to 3 entries with symbolic durations (zero included), '
+            'cyclical default/True/False, register/unregister operations from other events at symbolic instants, symbolic horizon; the '
+            'k-th schedule_update record must lie exactly at the k-fold prefix sum (a z3 term) with the prescribed state, one action per '
+            'currently registered object in registration order with (scheduler, object, now, state), and when time advances no due '
+            'change may be outstanding.',
+}
